@@ -341,7 +341,7 @@ var defaultPkgs = []string{
 	"./io", "./internal/convert",
 	"./rpc/core", "./rpc/mock", "./rpc/socket", "./rpc/udp", "./rpc/codec/jsonrpc",
 	"./rpc/plugins/circuitbreaker", "./rpc/plugins/cluster", "./rpc/plugins/forward", "./rpc/plugins/limiter",
-	"./rpc/plugins/loadbalance", "./rpc/plugins/log", "./rpc/plugins/oneway", "+./rpc/plugins/push",
+	"+./rpc/plugins/loadbalance", "./rpc/plugins/log", "./rpc/plugins/oneway", "+./rpc/plugins/push",
 	"./rpc/plugins/reverse", "./rpc/plugins/timeout",
 	"+github.com/orcaman/concurrent-map",
 }
